@@ -1395,6 +1395,8 @@ pub open spec fn write_frame(old: World, fin: World, base: PathV, name: Seq<u8>,
                 ('C18 C11:success-means-the-key-is-bound-and-the-source-consumed',
                  'r.is_ok() ==> old(w).files.contains_key(pv(value)) && !final(w).files.contains_key(pv(value)) && final(w).files.contains_key(%s)' % DST
                  + (' && final(w).files[%s] == old(w).files[pv(value)]' % DST if opname == 'set' else '')),
+                ('C13 C11:success-means-a-publication-happened' + ('' if opname == 'set' else '-unless-the-key-was-already-bound'),
+                 'r.is_ok() ==> final(w).published > old(w).published' + ('' if opname == 'set' else ' || old(w).files.contains_key(%s)' % DST)),
                 ('C11 C04 C09 C10:exact-effect-when-nothing-failed',
                  'r.is_ok() && final(w).hard_faults == old(w).hard_faults && old(w).dirs.contains(self.spec_base()) ==> exists|m: World| #[trigger] %s(*old(w), m, *final(w), self.spec_base(), str_bytes(name), pv(value), r.unwrap().is_some())' % exact),
                 ('C15 C16 C17:nothing-outside-this-cache-directory-changes',
